@@ -3,6 +3,7 @@
    coq/pins/C14.txt.  What is NOT proved here (tie only): that the real evaluator has no other such mechanism. *)
 From Coq Require Import ZArith List String Ascii Bool Arith Permutation.
 From SV Require Import Map.Spec Map.Model Eq.Model Core.Syntax Core.Values Core.Sem Determ.Model Determ.Proofs Determ.Cases.
+From SV Require Import Determ.Renaming Determ.RenamingOps Determ.RenamingPrims Determ.RenamingSem.
 Import ListNotations.
 
 (* hash(s): the ASCII fast path over the bytes and the UTF-16 fold with wrapping i32 arithmetic both compute the
@@ -100,11 +101,64 @@ Theorem C14_exec_deterministic : forall n m prog tr1 o1 tr2 o2,
   tr1 = tr2 /\ o1 = o2.
 Proof. exact run_program_deterministic. Qed.
 
-(* PARTIAL (full statement: running any MiniStar program from two isomorphic states yields the same transcript and
-   isomorphic final states; that needs the invariance of every interpreter clause and is not proved).  Proved: the
-   store primitives through which allocation history enters - allocating a list at DIFFERENT fresh addresses in two
-   isomorphic closed states gives related results and states isomorphic for the extended renaming; emit appends the
-   same observation to both transcripts. *)
+(* FULL: allocation-history independence of the MiniStar interpreter (Determ/Renaming*.v).
+   A renaming `r : ren` is four relations between addresses (lists, dicts, cells, closures).  `srel r s1 s2` says: each
+   relation is a partial bijection; related list / dict addresses hold element-wise related contents and the same
+   iteration-lock count; related cells hold related values (or are both unset); related closures have the same code,
+   related defaults and related environments; the transcripts are equal.  Nothing is required of unrelated addresses
+   (garbage, other allocation order).  `vrel r` relates values up to the renaming, `mrel r m1 m2` says: from any
+   `srel r`-related states the two computations end the same way (Ok / Fail with the same error and line / OutOfFuel),
+   with related results and final states related for an EXTENSION r' of r (fresh addresses are paired as they are
+   allocated).  Proved by induction on the fuel for eval, call and exec, hence for whole programs. *)
+Theorem C14_renaming_invariance : forall n,
+  (forall r en1 en2 e, erel r en1 en2 -> mrel r (eval n en1 e) (eval n en2 e)) /\
+  (forall r f1 f2 (pos1 pos2 : list value) (named1 named2 : list (string * value)),
+     vrel r f1 f2 -> Forall2 (vrel r) pos1 pos2 -> Forall2 (fun p q => fst p = fst q /\ vrel r (snd p) (snd q)) named1 named2 ->
+     mrel r (call n f1 pos1 named1) (call n f2 pos2 named2)) /\
+  (forall r en1 en2 st, erel r en1 en2 -> mrel r (exec n en1 st) (exec n en2 st)).
+Proof. exact rel_all. Qed.
+
+(* the statement for exec with `mrel` spelled out *)
+Theorem C14_exec_renaming_invariance : forall n r en1 en2 st s1 s2, erel r en1 en2 -> srel r s1 s2 ->
+  match exec n en1 st s1, exec n en2 st s2 with
+  | Ok c1 t1, Ok c2 t2 => exists r', sub r r' /\ srel r' t1 t2 /\ ctrl_rel r' c1 c2 /\ out t1 = out t2
+  | Fail e1 l1 t1, Fail e2 l2 t2 => e1 = e2 /\ l1 = l2 /\ exists r', sub r r' /\ srel r' t1 t2 /\ out t1 = out t2
+  | OutOfFuel, OutOfFuel => True
+  | _, _ => False
+  end.
+Proof.
+  intros n r en1 en2 st s1 s2 He Hs. pose proof (exec_rel n r en1 en2 st He s1 s2 Hs) as H. unfold rrel in H.
+  destruct (exec n en1 st s1), (exec n en2 st s2); try contradiction; auto.
+  - destruct H as (r' & S & Ht & Hc). exists r'. repeat (split; [assumption|]). apply (sr_out _ _ _ Ht).
+  - destruct H as (E1 & E2 & r' & S & Ht). split; [exact E1|]. split; [exact E2|]. exists r'. repeat (split; [assumption|]). apply (sr_out _ _ _ Ht).
+Qed.
+
+(* whole programs started from ANY two related stores (run_program is the case of the empty store): the same
+   transcript and the same outcome; and the final states are related *)
+Theorem C14_program_renaming_invariance : forall r s1 s2 fuel prog, srel r s1 s2 -> run_from s1 fuel prog = run_from s2 fuel prog.
+Proof. exact run_from_rel. Qed.
+
+Theorem C14_program_renaming_invariance_states : forall fuel prog r, mrel r (prog_m fuel prog) (prog_m fuel prog).
+Proof. exact prog_rel. Qed.
+
+Theorem C14_run_program_is_run_from_empty : forall fuel prog, run_program fuel prog = run_from empty_state fuel prog.
+Proof. exact run_program_from_empty. Qed.
+
+(* every value-level operation respects the relation, e.g. equality, ordering, truth, observation *)
+Theorem C14_value_ops_renaming_invariance : forall r s1 s2, srel r s1 s2 ->
+  (forall n a1 a2 b1 b2, vrel r a1 a2 -> vrel r b1 b2 -> veq n s1 a1 b1 = veq n s2 a2 b2) /\
+  (forall n a1 a2 b1 b2, vrel r a1 a2 -> vrel r b1 b2 -> vcmp n s1 a1 b1 = vcmp n s2 a2 b2) /\
+  (forall v1 v2, vrel r v1 v2 -> truth s1 v1 = truth s2 v2) /\
+  (forall n v1 v2, vrel r v1 v2 -> obs_of n s1 v1 = obs_of n s2 v2 /\ hashable n v1 = hashable n v2).
+Proof.
+  intros r s1 s2 Hs. split; [|split; [|split]].
+  - intros. apply (veq_rel r s1 s2); assumption.
+  - intros. apply (vcmp_rel r s1 s2); assumption.
+  - intros. apply (truth_rel r s1 s2); assumption.
+  - intros. split; [apply (obs_of_rel r s1 s2); assumption | apply (hashable_rel r); assumption].
+Qed.
+
+(* the earlier fragment for the store primitives with functional renamings, kept *)
 Theorem C14_renaming_invariance_partial : forall (fl fd fc : nat -> nat) s s', state_iso_w fl fd fc s s' -> state_closed s ->
   (forall vs, forallb (val_closed s) vs = true ->
      let fl' := upd_fun fl (List.length (lists s)) (List.length (lists s')) in
@@ -150,3 +204,36 @@ Proof.
   split; [|split; reflexivity].
   split; intros [|[|a]]; cbn; try reflexivity; destruct a; reflexivity.
 Qed.
+
+(* the hypotheses of C14_renaming_invariance are satisfiable on the same kind of stores: the cyclic list x = [1, x],
+   the dict {"k": x} and a cell holding the dict, at different addresses, with garbage and an unset cell in one store *)
+Definition rn_s1 : state :=
+  {| lists := [([VInt 1; VList 0], 0)]; dicts := [([(VStr "k", VList 0)], 0)]; cells := [Some (VDict 0)]; clos := []; out := [] |}.
+Definition rn_s2 : state :=
+  {| lists := [([VStr "garbage"], 0); ([], 0); ([VInt 1; VList 2], 0)]; dicts := [([], 0); ([(VStr "k", VList 2)], 0)];
+     cells := [None; Some (VDict 1)]; clos := []; out := [] |}.
+Definition rn_r : ren :=
+  {| rl := fun a b => a = 0 /\ b = 2; rd := fun a b => a = 0 /\ b = 1; rcl := fun a b => a = 0 /\ b = 1; rc := fun _ _ => False |}.
+Example C14_example_srel : srel rn_r rn_s1 rn_s2 /\ erel rn_r [("x"%string, 0)] [("x"%string, 1)].
+Proof.
+  split.
+  - constructor.
+    + intros a b [-> ->]. do 2 eexists. split; [reflexivity|]. split; [reflexivity|]. repeat constructor.
+    + intros a b [-> ->]. do 2 eexists. split; [reflexivity|]. split; [reflexivity|]. repeat constructor.
+    + intros a b [-> ->]. do 2 eexists. split; [reflexivity|]. split; [reflexivity|]. repeat constructor.
+    + intros a b [].
+    + reflexivity.
+    + intros a b a' b' [-> ->] [-> ->]. split; reflexivity.
+    + intros a b a' b' [-> ->] [-> ->]. split; reflexivity.
+    + intros a b a' b' [-> ->] [-> ->]. split; reflexivity.
+    + intros a b a' b' [].
+  - repeat constructor.
+Qed.
+(* emit(x["k"]) from both stores: the same, non-empty, transcript *)
+Example C14_example_run_related :
+  match exec 6 [("x"%string, 0)] (SExpr 7 (ECall (EVar "emit") [EIndex (EVar "x") (EStr "k")] [] None None)) rn_s1,
+        exec 6 [("x"%string, 1)] (SExpr 7 (ECall (EVar "emit") [EIndex (EVar "x") (EStr "k")] [] None None)) rn_s2 with
+  | Ok _ t1, Ok _ t2 => out t1 = out t2 /\ List.length (out t1) = 1
+  | _, _ => False
+  end.
+Proof. vm_compute. split; reflexivity. Qed.
